@@ -375,7 +375,9 @@ func c14StoredHash(c *Check) {
 		}
 		info := r.Info
 		body := r.FI.Decl.Body
-		setKey := func(info *types.Info, call *ast.CallExpr) bool { return isCall(info, call, "~/framework/module.MutableTable.SetKey") }
+		setKey := func(info *types.Info, call *ast.CallExpr) bool {
+			return isCall(info, call, "~/framework/module.MutableTable.SetKey")
+		}
 		msgs, n := r.SuccessOnlyFrom(setKey)
 		msg := ""
 		if n == 0 {
@@ -437,7 +439,9 @@ func c14StoredHash(c *Check) {
 		c.Hold("R3c", "Auth."+m+":stores-hash-of-password", r.FI.Decl.Pos(), msg == "", msg)
 		if m == "CreateUserHash" {
 			// existing credentials are not replaced
-			look := func(info *types.Info, call *ast.CallExpr) bool { return methodName(call) == "Lookup" && len(call.Args) == 2 }
+			look := func(info *types.Info, call *ast.CallExpr) bool {
+				return methodName(call) == "Lookup" && len(call.Args) == 2
+			}
 			msg := "undecided: no lookup of the key before storing"
 			for _, pt := range r.Calls(look) {
 				as, ok := pt.Node().(*ast.AssignStmt)
@@ -671,7 +675,20 @@ func c14Mapping(c *Check) {
 			return false, false
 		})
 		_, f := lf.Reach(Query{From: []Pt{lf.Entry()}, Inclusive: true, Target: isPt(authCalls), AvoidEdge: avoid})
-		okR6 = !f && len(authCalls) > 0 && idObj != nil
+		// the same in a model world – identity "a", user name "b" – which also reads `switch identity { case "", username: }`
+		vw := lf.ValueWorld(func(e ast.Expr) (constant.Value, bool) {
+			switch objOf(ci, e) {
+			case nil:
+				return nil, false
+			case idObj:
+				return constant.MakeString("a"), true
+			case userObj:
+				return constant.MakeString("b"), true
+			}
+			return nil, false
+		})
+		_, f2 := lf.Reach(Query{From: []Pt{lf.Entry()}, Inclusive: true, Target: isPt(authCalls), AvoidEdge: vw})
+		okR6 = (!f || !f2) && len(authCalls) > 0 && idObj != nil
 		return false
 	})
 	c.Hold("R6", "CreateSASL:authz-identity", cs.FI.Decl.Pos(), okR6, "PLAIN authenticates although the authorization identity differs from the authentication identity (or the comparison is missing)")
@@ -843,7 +860,6 @@ func c14Gate(c *Check) {
 		c.Hold("R7", "CreateSASL:callback-after-success", cs.FI.Decl.Pos(), okAll && n >= 2, "a SASL mechanism can invoke the success callback (which records the authenticated user) without a successful authentication")
 	}
 }
-
 
 // c14IsAuth: the call authenticates – SASLAuth.AuthPlain itself, or a function of the auth package that returns nil
 // only as the nil result of SASLAuth.AuthPlain (`checkCreds`).
